@@ -11,9 +11,14 @@ from harness import tlc as T
 from harness.core import canon
 
 ND, NS = 2, 2
-NFOLDS = {"n": 2, "presplit": False, "features": None, "single": False, "uea": False, "cols": ["dim_0", "dim_1"]}
+NFOLDS = {"n": 2, "presplit": False, "features": None, "single": False, "uea": False, "cols": ["dim_0", "aux"]}
 N_TRAIN_UEA = 5
 N_INST = 8
+
+
+def n_of(d):
+    """Datasets of different sizes: 8, 10, ... instances."""
+    return N_INST + 2 * (d - 1)
 CALLS = {"n": 0, "crash": 0, "log": []}
 
 
@@ -65,16 +70,18 @@ def make_classifier():
 
 def dataset(d):
     """Instance ids 100*d + i are the (constant) values of the series, so records are self-describing."""
-    ids = [100 * d + i for i in range(N_INST)]
-    # the target is not the last column and the row labels are not 0..n-1: records identify instances by fold position
+    n = n_of(d)
+    ids = [100 * d + i for i in range(n)]
+    # the target is not the last column, the columns are not in alphabetical order and the row labels are not 0..n-1:
+    # records identify instances by fold position
     return pd.DataFrame({"dim_0": [pd.Series([float(i)] * 4) for i in ids], "class_val": [i % 2 for i in ids],
-                         "dim_1": [pd.Series([1.0, 2.0]) for _ in ids]},
-                        index=(["test" if i % 3 == 1 else "train" for i in range(N_INST)] if NFOLDS["presplit"]
-                               else [50 + 3 * ((i * 5) % N_INST) for i in range(N_INST)]))
+                         "aux": [pd.Series([1.0, 2.0]) for _ in ids]},
+                        index=(["test" if i % 3 == 1 else "train" for i in range(n)] if NFOLDS["presplit"]
+                               else [50 + 3 * ((i * 7) % n) for i in range(n)]))
 
 
 def honest(d, s, train_pos, pos):
-    ids = [100 * d + i for i in range(N_INST)]
+    ids = [100 * d + i for i in range(n_of(d))]
     sig = sum(ids[p] for p in train_pos)
     return [(sig * 7 + s * 3 + ids[p]) % 5 for p in pos]
 
@@ -92,16 +99,17 @@ def make_cv():
     return KFold(n_splits=NFOLDS["n"])
 
 
-def folds():
+def folds(d=1):
+    n = n_of(d)
     if NFOLDS["uea"]:            # the rows of the TRAIN file, then those of the TEST file
-        return [(list(range(N_TRAIN_UEA)), list(range(N_TRAIN_UEA, N_INST)))]
+        return [(list(range(N_TRAIN_UEA)), list(range(N_TRAIN_UEA, n)))]
     if NFOLDS["presplit"]:       # by definition, not by asking the splitter
-        return [([i for i in range(N_INST) if i % 3 != 1], [i for i in range(N_INST) if i % 3 == 1])]
+        return [([i for i in range(n) if i % 3 != 1], [i for i in range(n) if i % 3 == 1])]
     if NFOLDS["single"]:         # by definition: scikit-learn's seeded split of the row positions
         from sklearn.model_selection import train_test_split
-        a, b = train_test_split(np.arange(N_INST), test_size=0.5, random_state=3, shuffle=True)
+        a, b = train_test_split(np.arange(n), test_size=0.5, random_state=3, shuffle=True)
         return [(list(a), list(b))]
-    return [(list(a), list(b)) for a, b in make_cv().split(np.arange(N_INST))]
+    return [(list(a), list(b)) for a, b in make_cv().split(np.arange(n))]
 
 
 def do_run(path, o, crash):
@@ -120,7 +128,7 @@ def do_run(path, o, crash):
         root = path + "_data"
         for d in range(1, ND + 1):
             os.makedirs(os.path.join(root, "d%d" % d), exist_ok=True)
-            ids = [100 * d + i for i in range(N_INST)]
+            ids = [100 * d + i for i in range(n_of(d))]
             for suffix, part in (("_TRAIN", ids[:N_TRAIN_UEA]), ("_TEST", ids[N_TRAIN_UEA:])):
                 with open(os.path.join(root, "d%d" % d, "d%d%s.ts" % (d, suffix)), "w") as f:
                     f.write("@problemName d%d\n@timeStamps false\n@univariate true\n@classLabel true 0 1\n@data\n" % d)
@@ -182,7 +190,7 @@ def observe(runs, workdir, tid):
     writer = {}       # rel file -> run number that (last) wrote it
     prev = {"files": {}}
     out = []
-    fl = folds()
+    fl = {d: folds(d) for d in range(1, ND + 1)}
     try:
         for rn, run in enumerate(runs, start=1):
             crashed, log = do_run(path, run["o"], run["crash"])
@@ -194,9 +202,9 @@ def observe(runs, workdir, tid):
                     writer[rel] = rn            # created or rewritten in this run
                 if df is not None:
                     d, s, f, part = key_of(rel)
-                    tr, te = fl[f - 1]
+                    tr, te = fl[d][f - 1]
                     pos = list(te if part == "test" else tr)
-                    ids = [100 * d + i for i in range(N_INST)]
+                    ids = [100 * d + i for i in range(n_of(d))]
                     ok = list(df["index"]) == pos and list(df["y_true"]) == [ids[p] % 2 for p in pos] and \
                         list(df["y_pred"]) == honest(d, s, list(tr), pos)
                     if not ok:
@@ -215,7 +223,11 @@ def observe(runs, workdir, tid):
             for (what, sid, ids) in completed:
                 d = ids[0] // 100
                 if what == "fit":
-                    f = 1 + [tuple(100 * d + p for p in tr) for tr, _ in fl].index(ids)
+                    trains = [tuple(100 * d + p for p in tr) for tr, _ in fl[d]]
+                    if ids not in trains:
+                        raise AssertionError("FoldOfItsOwnDataset: a strategy was fitted on instances %s of dataset %d, "
+                                             "which are not the training instances of any of its folds %s" % (ids, d, trains))
+                    f = 1 + trains.index(ids)
                     cur = (d, sid, f, ids)
                     fits.append((d, sid, f))
                 else:
@@ -257,6 +269,47 @@ def observe(runs, workdir, tid):
         shutil.rmtree(path + "_data", ignore_errors=True)
 
 
+def ram_stores_independent():
+    """Two in-memory result stores of one process, filled by two benchmarks that use the same strategy and dataset names
+    (the same benchmark under two cross-validation schemes): what the first store returns is what its own run stored."""
+    from sktime.benchmarking.orchestration import Orchestrator
+    from sktime.benchmarking.results import RAMResults
+    from sktime.benchmarking.strategies import TSCStrategy
+    from sktime.benchmarking.tasks import TSCTask
+    from sktime.benchmarking.data import RAMDataset
+    from sklearn.model_selection import KFold
+    import logging
+    logging.disable(logging.CRITICAL)
+    saved = dict(NFOLDS)
+    NFOLDS.update(n=2, presplit=False, single=False, uea=False, features=None, cols=["dim_0", "aux"])
+    CALLS.update(n=0, crash=0, log=[])
+    try:
+        def bench(cv):
+            res = RAMResults()
+            Orchestrator(tasks=[TSCTask(target="class_val")], datasets=[RAMDataset(dataset(1), name="d1")],
+                         strategies=[TSCStrategy(make_classifier()(sid=1), name="s1")], cv=cv, results=res).fit_predict(
+                save_fitted_strategies=False)
+            return res
+
+        def read(res, nf):
+            return [(pw.strategy_name, pw.dataset_name, f, list(pw.index), list(pw.y_true), list(pw.y_pred))
+                    for f in range(nf) for pw in res.load_predictions(cv_fold=f, train_or_test="test")]
+        first = bench(KFold(n_splits=2))
+        before = read(first, 2)
+        want = [("s1", "d1", f, list(te), [(100 + p) % 2 for p in te], honest(1, 1, list(tr), list(te)))
+                for f, (tr, te) in enumerate(KFold(n_splits=2).split(np.arange(n_of(1))))]
+        if before != want:
+            return "the in-memory store returns %s for a 2-fold run, stored were %s" % (before, want)
+        bench(KFold(n_splits=2, shuffle=True, random_state=1))
+        after = read(first, 2)
+        if after != before:
+            return "the first store returned %s before, %s after another store was filled" % (before[:1], after[:1])
+        return None
+    finally:
+        NFOLDS.clear()
+        NFOLDS.update(saved)
+
+
 def expected_of(run):
     s = run["snap"]
     return {"pred": sorted([list(x) for x in s["pred"]]), "fitted": sorted([list(x) for x in s["fitted"]]),
@@ -287,8 +340,8 @@ def run(ctx):
         NFOLDS["presplit"] = bool(b["nf"] == 1 and i % 4 == 1)
         NFOLDS["single"] = bool(b["nf"] == 1 and i % 4 == 3)
         NFOLDS["uea"] = bool(b["nf"] == 1 and i % 4 == 2)
-        NFOLDS["cols"] = ["dim_0"] if NFOLDS["uea"] else ["dim_0", "dim_1"]
-        NFOLDS["features"] = ["dim_1", "dim_0"] if (i % 3 == 2 and not NFOLDS["uea"]) else None   # explicit feature list in another order than the data's
+        NFOLDS["cols"] = ["dim_0"] if NFOLDS["uea"] else ["dim_0", "aux"]
+        NFOLDS["features"] = ["dim_0", "aux"][::-1] if (i % 3 == 2 and not NFOLDS["uea"]) else None   # explicit feature list in another order than the data's
         obs = observe(runs, work, i)
         ctx.evaluations += 1
         sc = {"runs": [{"o": x["o"], "crash": x["crash"]} for x in runs], "folds": b["nf"], "presplit": NFOLDS["presplit"],
@@ -331,6 +384,16 @@ def run(ctx):
             ctx.sample({"runs": sc["runs"], "expected_after_last_run": expected_of(runs[-1])})
     if len(kinds) < 3:
         raise T.TLCError("vacuity: run kinds %s" % kinds)
+    ctx.evaluations += 1
+    sc = {"ram_stores": True}
+    try:
+        msg = ram_stores_independent()
+        if msg:
+            ctx.violation(sc, "ReadBackEqualsStored: " + msg)
+        else:
+            ctx.nontriv(sc)
+    except Exception as e:
+        ctx.violation(sc, "crash: %s %s" % (type(e).__name__, str(e)[:160]))
     # code -> spec: every recorded run, judged by TLC from the store observed before it
     rejects, _ = ctx.judge("TraceBenchmark", "TraceBenchmark.cfg", [{k_: e[k_] for k_ in e if k_ != "sc"} for e in events])
     ntr = len({e["tid"] for e in events})
@@ -354,13 +417,19 @@ def run(ctx):
 
 def replay(ctx, doc):
     sc = doc["scenario"]
+    if sc.get("ram_stores"):
+        msg = ram_stores_independent()
+        print(msg)
+        if msg:
+            print("VIOLATION property=C19 replay=%s" % ctx.replay)
+        return 1 if msg else 0
     work = os.path.join(ctx.work, "stores")
     os.makedirs(work, exist_ok=True)
     NFOLDS["n"] = sc.get("folds", 2)
     NFOLDS["presplit"] = bool(sc.get("presplit"))
     NFOLDS["single"] = bool(sc.get("single"))
     NFOLDS["uea"] = bool(sc.get("uea"))
-    NFOLDS["cols"] = ["dim_0"] if NFOLDS["uea"] else ["dim_0", "dim_1"]
+    NFOLDS["cols"] = ["dim_0"] if NFOLDS["uea"] else ["dim_0", "aux"]
     NFOLDS["features"] = sc.get("features")
     obs = observe(sc["runs"], work, 0)
     print(canon(obs)[:3000])
